@@ -21,6 +21,8 @@ PROPS = {
                 explanation="CELSIUS offset constant and both FAHRENHEIT closures against the defining formulas (TABLES); apply_conversion Offset/Methods arms, check_offset, Compound::factor chain postcondition and offset guard, Compound::mul offset guard (COMPOUND); formulas, composition, inverse as lemmas over those contracts"),
     "C17": dict(units=[], kani="ids", standin=True, level="proof",
                 explanation="Kani function contract on the real id_to_derived (every u32 id decodes to a unit carrying that id), every Derived static decodes through its own id to itself, ids equal the pinned list; serde derive output is a bounded stand-in"),
+    "C07": dict(units=["FROMSTR"], standin=True, level="proof",
+                explanation="impl FromStr for Rational proved against an independent literal grammar (spec/lit_spec.rs): Ok(q) => q is exactly the number the byte string spells; every literal of the grammar with an exponent <= u32::MAX is accepted; unbounded loops closed by invariants; NUMBER/PERCENTAGE arms of eval() and the lexer's choice of extent are bounded-checked"),
 }
 
 COMMON_TRUST = [
@@ -36,6 +38,7 @@ SHIM_TRUST = {
     "shims/base.rs": "num shim: ~70 assumed contracts for BigInt/BigRational (new requires denom != 0, exact field ops, recip requires != 0, trunc toward zero, round half away from zero, floor, ceil, Pow<i32> with reciprocal for negative exponents, numer/denom reduced with positive denominator, to_i32 = truncate-then-fit, From<u32/i32/u128>)",
     "shims/vec_iter.rs": "by-value Vec iteration yields the elements in order",
     "shims/unit_shim.rs": "ConversionMethods opaque; R6 outlines call_methods_to/from, call_vtable_powers (adds power*derived_dim, assumed-by-table: proved per closure in unit TABLES), Unit::conversion = table entry with non-zero fraction (assumed-by-table)",
+    "shims/peekable_bytes.rs": "std Peekable<Bytes>: peek/next yield the remaining bytes in order (assume_specification); R6 outline of `number.bytes().peekable()` yields the UTF-8 bytes of the str; str_bytes is uninterpreted",
     "shims/syntree_span.rs": "syntree::Span<u32> as plain data; LookupError / ParseIntError / syntree::Error opaque",
 }
 
